@@ -128,6 +128,34 @@ class Steps(list):
     locals = frozenset()
 
 
+def _last_type_arg(ty):
+    """The last top-level generic argument of `Path<A, B>` (None when there is none)."""
+    i = ty.find("<")
+    if i < 0 or not ty.endswith(">"):
+        return None
+    depth, cur, parts = 0, "", []
+    for ch in ty[i + 1:-1]:
+        if ch in "<([":
+            depth += 1
+        elif ch in ">)]":
+            depth -= 1
+        if ch == "," and depth == 0:
+            parts.append(cur.strip())
+            cur = ""
+        else:
+            cur += ch
+    parts.append(cur.strip())
+    return parts[-1] if parts else None
+
+
+def _same_error_type(gargs):
+    """gargs of `<Result<T, F> as FromResidual<Result<Infallible, E>>>::from_residual`: F == E."""
+    if len(gargs) != 2 or not all(g.startswith("std::result::Result<") for g in gargs):
+        return False
+    a, b = _last_type_arg(gargs[0]), _last_type_arg(gargs[1])
+    return a is not None and a == b
+
+
 def trace(fn, start, through=(), max_nodes=4000):
     """Origins of the value `start` (operand dict, place dict or (local, proj)), looking through moves, references,
     aggregates (field- and variant-sensitively), `?`, Ok-preserving adaptors and the callees in `through`
@@ -239,6 +267,10 @@ def trace(fn, start, through=(), max_nodes=4000):
                 if FROM_RESIDUAL.search(callee):
                     if rest and rest[0][0] == "dc" and rest[0][1] in ("Ok", "Some"):
                         continue            # from_residual only ever builds the Err / None case
+                    if args and _starts(rest, ERR_0) and _same_error_type(node.get("gargs") or []):
+                        # `?` between two Results with the same error type: From::from is the identity, the payload is the residual's
+                        follow_op(args[0], rest, bb, node)
+                        continue
                     add("call", bb, node, rest)
                     continue
                 if OK_PRESERVING.search(callee) and args and rest and rest[0][0] == "dc" and rest[0][1] in ("Ok", "Some"):
